@@ -40,7 +40,9 @@ META = {
             "heap_roundtrip_unboxed, eval_quote_id, text_heap_result_text, source_text_trip (the text (quote <written>) "
             "reads as the quote form around a datum that evaluates to itself and is written as the same text), and the "
             "atom lemmas. write_read_write_fragment_partial is the same statement under a decidable hypothesis (symbols "
-            "of plain identifier shape or number-initial symbol tokens such as 1+ -a ->x). Hypotheses, not proved: FloatText (C16: reading a printed finite double gives it back; it "
+            "of plain identifier shape or number-initial symbol tokens such as 1+ ->x 1e--7; since fix c1c04ca a sign directly "
+            "after the exponent marker of a decimal mantissa continues the number - 1e-7 is no symbol any more - which "
+            "numSymFlag tracks with the scanner's three booleans). Hypotheses, not proved: FloatText (C16: reading a printed finite double gives it back; it "
             "contains '.' or 'e' and no '/') and FloatLex (a printed finite double is an optional '-', a digit, then "
             "digits/'.'/'e') about Rust's float formatting and parsing; both are checked on sampled doubles by the "
             "stream float-text-hypotheses, and a toy FloatOps satisfying both is exhibited. Readable symbols are "
